@@ -587,7 +587,17 @@ def gen_deep_case(run_seed: int, tier: str) -> dict[str, Any]:
             calls.insert(w.randint(0, len(calls)), {"api": "reformat_text", "text": corpus.gen_deep_doc(w), "kw": dict(base)})
         threads.append(calls)
     p = sub_rng(run_seed, "policy")
-    policy = {"kind": "bernoulli", "seed": p.getrandbits(48), "p": p.choice([1 / 2, 1 / 3, 1 / 6])}
+    policy: dict[str, Any] = {"kind": "bernoulli", "seed": p.getrandbits(48), "p": p.choice([1 / 2, 1 / 3, 1 / 6])}
+    if p.random() < 0.6:
+        # the few yield points of these runs make the interesting order cheap to aim at: a small
+        # call starts, is parked after k of its steps, the deep call runs j steps, the small call
+        # finishes (restoring whatever it saved) while the deep call is still in flight
+        # (a call passes about 8 yield points at this granularity)
+        small_t = p.choice([t for t in range(len(threads)) if t != deep_t])
+        deep_pos = next(i for i, c in enumerate(threads[deep_t]) if c["api"] == "reformat_text" and len(c["text"]) > 3000 and c["text"].startswith("- item 0"))
+        k_ = 8 * p.randrange(len(threads[small_t])) + p.randint(2, 7)
+        j_ = 8 * deep_pos + p.randint(1, 8)
+        policy = {"kind": "pct", "order": [small_t, deep_t] + [t for t in range(len(threads)) if t not in (small_t, deep_t)], "change_steps": [k_, k_ + j_]}
     return {"check": CHECK, "run_seed": run_seed, "shape": "deep_concurrent", "epochs": [{"threads": threads}], "policy": policy, "faults": [], "granularity": "api", "est_steps": 500, "step_cap": 200000}
 
 
